@@ -20,8 +20,11 @@ TREES = {
                 "src/c.md": "info!(\"not code\")\n"},
     "nothing-missing": {"src/a.rs": 'fn a() { info!("[ref: 7] have"); }\n', "src/b.txt": 'fn b() { info!("[ref: 3] have"); }\n', "src/c.md": "x\n"},
     "no-in-scope-file": {"src/c.md": "info!(\"not code\")\n", "src/d.c": "x\n"},
+    # the only *.rs names below source_dir are symbolic links to files outside it: still nothing in scope
+    "only-symlinks-in-scope": {"src/l.rs": ("symlink", "../outside/o.rs"), "src/sub/m.rs": ("symlink", "../../outside/o.rs"),
+                               "outside/o.rs": 'fn o() { info!("need outside"); }\n', "src/c.md": "x\n"},
 }
-TREES_STRUCT = {k: {p: c.replace('"[ref: 7] have"', 'ref = 7; "have"').replace('"[ref: 3] have"', 'ref = 3; "have"') for p, c in t.items()}
+TREES_STRUCT = {k: {p: (c.replace('"[ref: 7] have"', 'ref = 7; "have"').replace('"[ref: 3] have"', 'ref = 3; "have"') if isinstance(c, str) else c) for p, c in t.items()}
                 for k, t in TREES.items()}
 INVALID = {
     "config-missing": None,
@@ -62,11 +65,25 @@ def _job(args):
         if INVALID[name] is not None:
             tree["Breadlog.yaml"] = INVALID[name]
         tree["Breadlog.lock"] = cli.lock_yaml(8)
+    links = {p: c[1] for p, c in tree.items() if isinstance(c, tuple)}
+    tree = {p: c for p, c in tree.items() if not isinstance(c, tuple)}
     cli.write_tree(proj, tree)
+    for p, target in links.items():
+        os.makedirs(os.path.dirname(os.path.join(proj, p)), exist_ok=True)
+        os.symlink(target, os.path.join(proj, p))
+        tree[p] = open(os.path.join(proj, p), "rb").read()      # what is seen through the link
+    out["symlinks"] = sorted(links)
     before = cli.snapshot(work, with_meta=False)
     r = cli.run_breadlog(os.path.join(proj, "Breadlog.yaml"), check=check, cwd=work, tmpdir=tmp, timeout=30,
                          shim={"log": os.path.join(work, "..", os.path.basename(work) + ".fsxlog"), "roots": [proj, tmp]})
     after_files = cli.read_tree(proj)
+    for p in links:
+        try:
+            after_files[p] = open(os.path.join(proj, p), "rb").read()      # through the link, or the regular file that replaced it
+        except OSError:
+            after_files.pop(p, None)
+        if not os.path.islink(os.path.join(proj, p)):
+            after_files[p] = b"<no longer a symbolic link> " + after_files.get(p, b"")
     out["exit"], out["signal"], out["panicked"] = r.exit, r.signal, r.panicked
     out["before"] = {k: (v.encode() if isinstance(v, str) else v) for k, v in tree.items()}
     out["after"] = after_files
@@ -109,7 +126,7 @@ def model_and_judge(o, v):
     structured = bool(STRUCT[sn])               # default false
     exts = EXTS[en] or ["rs"]                   # default [rs]
     before, after = o["before"], o["after"]
-    scope = [f for f in before if f.startswith("src/") and f.rsplit(".", 1)[-1] in exts and "." in f]
+    scope = [f for f in before if f.startswith("src/") and f.rsplit(".", 1)[-1] in exts and "." in f and f not in o.get("symlinks", ())]
     bad = []
     if o["panicked"] or o["signal"] is not None:
         bad.append("abnormal-termination")
